@@ -928,3 +928,37 @@ def json_copy(x):
     import json as _j
 
     return _j.loads(_j.dumps(x))
+
+
+def shrink_world(trace, still_fails):
+    """Minimisation step (iii): drop clients, scorers and datasets the remaining steps do
+    not need (client indices in the steps are remapped)."""
+    import json as _j
+
+    tr = _j.loads(_j.dumps(trace))
+    changed = False
+    # objects, last to first
+    k = len(tr["objects"]) - 1
+    while k >= 0:
+        name = tr["objects"][k]["name"]
+        referenced = any(('"__ref__": "%s"' % name) in _j.dumps(o["spec"]) for o in tr["objects"]) or any(
+            ('"__ref__": "%s"' % name) in _j.dumps(st) for st in tr["steps"]
+        )
+        used = any(st.get("c") == k for st in tr["steps"])
+        if not referenced and not used:
+            cand = _j.loads(_j.dumps(tr))
+            del cand["objects"][k]
+            for st in cand["steps"]:
+                if isinstance(st.get("c"), int) and st["c"] > k:
+                    st["c"] -= 1
+            if still_fails(cand):
+                tr = cand
+                changed = True
+        k -= 1
+    used_ds = {st.get("d") for st in tr["steps"]} | {st.get("like") for st in tr["steps"]}
+    cand = _j.loads(_j.dumps(tr))
+    cand["datasets"] = [d for d in cand["datasets"] if d["id"] in used_ds]
+    if len(cand["datasets"]) < len(tr["datasets"]) and cand["datasets"] and still_fails(cand):
+        tr = cand
+        changed = True
+    return tr if changed else None
